@@ -581,9 +581,3 @@ Proof.
     intros tk nk tb. apply (C12_distinct hid vn vd so hid_inj).
 Qed.
 End C12_examples.
-
-(** Source constants.  The literals of the model behind this property are tied to the
-    constants of /repo's Go sources (Gen/Params.v, regenerated from the working tree on
-    every run) in Proofs/TiesNNS.v; requiring that file here makes the obligations of this
-    property fail when a constant it depends on is edited in the source. *)
-Require Verif.Proofs.TiesNNS.
